@@ -57,30 +57,127 @@ def _lean_sources():
 def lean_digest():
     h = hashlib.sha256()
     for p in _lean_sources():
-        h.update(p.encode())
+        h.update(os.path.relpath(p, LEAN).encode())
         with open(p, 'rb') as f:
             h.update(f.read())
     return h.hexdigest()
 
 
+# --- the decision atoms of the source (tools/gen_source_lean.py): regenerated from the tree under test on every run ------
+SOURCE_ATOMS = {'atoms': None, 'notes': None}
+BUILD = {'done': False, 'failed_targets': [], 'errors': ''}
+
+
+def _gen_source():
+    import importlib.util
+    spec = importlib.util.spec_from_file_location('gen_source_lean', os.path.join(VERIF, 'tools', 'gen_source_lean.py'))
+    mod = importlib.util.module_from_spec(spec)
+    spec.loader.exec_module(mod)
+    atoms, notes = mod.extract(REPO)
+    SOURCE_ATOMS.update(atoms=atoms, notes=notes)
+    return mod.render(atoms)
+
+
+def _write_if_changed(path, text):
+    old = open(path).read() if os.path.exists(path) else None
+    if old != text:
+        tmp = path + '.tmp%d' % os.getpid()
+        with open(tmp, 'w') as f:
+            f.write(text)
+        os.replace(tmp, path)
+
+
+def _select_lean(text):
+    """Where to build: /verif/lean for /repo itself (Source.lean regenerated in place); for a scratch tree (VERIF_REPO,
+    mutation testing) whose atoms differ from /repo's, a private copy of the project - so that runs against different trees
+    never share a driver built from different atoms."""
+    global LEAN, DRIVER
+    main_src = os.path.join(VERIF, 'lean', 'PlaybackModel', 'Source.lean')
+    if os.path.realpath(REPO) == '/repo':
+        return main_src
+    if os.path.exists(main_src) and open(main_src).read() == text:
+        return None                                  # same atoms: share the main build, nothing to write
+    LEAN = os.path.join(VERIF, 'replays', 'lean-' + hashlib.sha1(text.encode()).hexdigest()[:12])
+    DRIVER = os.path.join(LEAN, '.lake', 'build', 'bin', 'driver')
+    if not os.path.isdir(LEAN):
+        tmp = LEAN + '.tmp%d' % os.getpid()
+        shutil.copytree(os.path.join(VERIF, 'lean'), tmp, symlinks=True, ignore=shutil.ignore_patterns('Audit', '.build.lock', 'built.digest', 'audit-*.json'))
+        try:
+            os.replace(tmp, LEAN)
+        except OSError:
+            shutil.rmtree(tmp, ignore_errors=True)   # another process was faster
+    return os.path.join(LEAN, 'PlaybackModel', 'Source.lean')
+
+
 def ensure_built():
-    """`lake build` under an exclusive lock (concurrent checks after a fresh restore must not race)."""
+    """Regenerate `PlaybackModel/Source.lean` from the tree under test, then `lake build`, under an exclusive lock
+    (concurrent checks after a fresh restore must not race).  The executable model (driver) must build: anything else is an
+    infrastructure error.  A failing PROOF module is not: it is recorded in BUILD['failed_targets'] and decided by the check
+    that depends on it (DESIGN.md section 5: proof-broken)."""
+    if BUILD['done']:
+        return
+    text = _gen_source()
+    os.makedirs(os.path.join(VERIF, 'lean', '.lake'), exist_ok=True)
+    lock0 = open(os.path.join(VERIF, 'lean', '.build.lock'), 'w')
+    fcntl.flock(lock0, fcntl.LOCK_EX)
+    try:
+        target = _select_lean(text)
+    finally:
+        fcntl.flock(lock0, fcntl.LOCK_UN)
+        lock0.close()
     os.makedirs(os.path.join(LEAN, '.lake'), exist_ok=True)
     lock = open(os.path.join(LEAN, '.build.lock'), 'w')
     fcntl.flock(lock, fcntl.LOCK_EX)
     try:
+        if target is not None:
+            _write_if_changed(target, text)
         stamp = os.path.join(LEAN, '.lake', 'built.digest')
+        fails = os.path.join(LEAN, '.lake', 'built.failures.json')
         digest = lean_digest()
         if os.path.exists(stamp) and os.path.exists(DRIVER) and open(stamp).read() == digest:
+            if os.path.exists(fails):
+                BUILD.update(json.load(open(fails)))
+            BUILD['done'] = True
             return
-        p = subprocess.run(['lake', 'build'], cwd=LEAN, capture_output=True, text=True, timeout=3000)
+        p = subprocess.run(['lake', 'build', 'driver'], cwd=LEAN, capture_output=True, text=True, timeout=3000)
         if p.returncode != 0:
-            raise InfraError('lake build failed:\n' + p.stdout[-4000:] + p.stderr[-2000:])
+            raise InfraError('the executable model does not build (lake build driver):\n' + p.stdout[-4000:] + p.stderr[-2000:])
+        p = subprocess.run(['lake', 'build'], cwd=LEAN, capture_output=True, text=True, timeout=3000)
+        info = {'failed_targets': [], 'errors': ''}
+        if p.returncode != 0:
+            out = p.stdout + p.stderr
+            info['failed_targets'] = re.findall(r'^- ([\w.]+)\s*$', out, flags=re.M)
+            info['errors'] = '\n'.join(l for l in out.split('\n') if l.startswith('error:'))[:6000]
+            if not info['failed_targets'] or any(not t.startswith(('PlaybackProofs.', 'Properties.')) for t in info['failed_targets']):
+                raise InfraError('lake build failed outside the proof modules:\n' + out[-4000:])
+        with open(fails, 'w') as f:
+            json.dump(info, f)
         with open(stamp, 'w') as f:
             f.write(digest)
+        BUILD.update(info)
+        BUILD['done'] = True
     finally:
         fcntl.flock(lock, fcntl.LOCK_UN)
         lock.close()
+
+
+def _enclosing_theorems(errors):
+    """names of the theorems the build errors sit in (`error: File.lean:line:col: …`)"""
+    names = []
+    for m in re.finditer(r'^error: ([\w/]+\.lean):(\d+):\d+', errors, flags=re.M):
+        path, line = os.path.join(LEAN, m.group(1)), int(m.group(2))
+        try:
+            src = open(path).read().split('\n')
+        except OSError:
+            continue
+        for k in range(min(line, len(src)) - 1, -1, -1):
+            t = re.match(r'\s*(?:private\s+)?(?:theorem|lemma|example|def)\s+([\w.\']+)?', src[k])
+            if t:
+                name = '%s: %s' % (m.group(1), t.group(1) or 'example (line %d)' % (k + 1))
+                if name not in names:
+                    names.append(name)
+                break
+    return names
 
 
 def _strip_comments(src):
@@ -125,6 +222,15 @@ def audit(prop_id, thorough=False):
     hits = grep_forbidden()
     if hits:
         raise InfraError('forbidden tokens in Lean sources:\n' + '\n'.join(hits))
+    if BUILD['failed_targets']:
+        # some proof module no longer checks against the atoms read from the source: does THIS property depend on it?
+        q = subprocess.run(['lake', 'build', 'Properties.' + prop_id], cwd=LEAN, capture_output=True, text=True, timeout=3000)
+        if q.returncode != 0:
+            out = q.stdout + q.stderr
+            errs = '\n'.join(l for l in out.split('\n') if l.startswith('error:'))
+            return {'digest': digest, 'theorems': names, 'axioms': {}, 'bad': {}, 'leanchecker': False,
+                    'proof_broken': {'targets': re.findall(r'^- ([\w.]+)\s*$', out, flags=re.M),
+                                     'theorems': _enclosing_theorems(errs), 'errors': errs[:3000]}}
     adir = os.path.join(LEAN, 'Audit')
     os.makedirs(adir, exist_ok=True)
     afile = os.path.join(adir, prop_id + '.lean')
@@ -404,6 +510,7 @@ class Run(object):
         a = audit(prop.ID, thorough=(self.tier == 'thorough'))
         if a['bad']:
             raise InfraError('theorems depending on non-standard axioms: %s' % a['bad'])
+        broken = a.get('proof_broken')
         rng = random.Random(self.seed)
         corpus = prop.corpus()
         generated = list(prop.generate(rng, self.tier))
@@ -441,12 +548,40 @@ class Run(object):
                     path = self.write_replay('correspondence-broken', c, i, m, [],
                                              {'shrunk_case': c2, 'search_evaluations': self.search_evals})
                     self.violations.append((path, True))
+        if broken and not any(not nofail for _, nofail in self.violations):
+            # a proof obligation of this property no longer checks against the source and no concrete failing input was
+            # found on the real code: still a violation (the property is no longer shown to hold), named as such
+            if not self.violations and cases:
+                # the regenerated model follows the code, so the correspondence cannot see the change: give the direct
+                # oracle more inputs (the property's targeted stream) before giving up on a concrete failing input
+                stream = list(prop.targeted(cases[-1], rng))[:2000]
+                for k in range(0, len(stream), 512):
+                    for (c, i, m, fails, agrees) in self.evaluate(stream[k:k + 512]):
+                        self.search_evals += 1
+                        if fails:
+                            self.report_property_violation(c, i, m, fails)
+                    if any(not nofail for _, nofail in self.violations):
+                        break
+        if broken and not any(not nofail for _, nofail in self.violations):
+            path = os.path.join(VERIF, 'replays', '%s-%s-seed%d-proof-broken.json' % (prop.ID, self.tier, self.seed))
+            os.makedirs(os.path.dirname(path), exist_ok=True)
+            with open(path, 'w') as f:
+                json.dump({'property': prop.ID, 'seed': self.seed, 'tier': self.tier, 'kind': 'proof-broken',
+                           'theorems': broken['theorems'], 'failed_modules': broken['targets'], 'lean_errors': broken['errors'],
+                           'source_atoms': SOURCE_ATOMS, 'cases_evaluated': len(results),
+                           'note': 'the Lean model is regenerated from the decision atoms of the source (tools/gen_source_lean.py); '
+                                   'with the atoms of the tree under test these theorems no longer check. No input on which the '
+                                   'real code violates the property was found among the evaluated cases.'}, f, indent=1, sort_keys=True)
+            self.violations = [v for v in self.violations if not v[1]] + [(path, True)]
         wall = time.time() - self.t0
         samples = [prop.sample_repr(c) for c in (generated[:2] + corpus[:1])] or [prop.sample_repr(c) for c in cases[:1]]
         ev = {
             'property_id': prop.ID, 'tier': self.tier, 'seed': self.seed, 'level': 'proof',
             'coverage': {
-                'obligations': len(a['theorems']), 'discharged': len(a['theorems']) - len(a['bad']),
+                'obligations': len(a['theorems']),
+                'discharged': 0 if broken else len(a['theorems']) - len(a['bad']),
+                'proof_broken': broken['theorems'] if broken else [],
+                'source_atoms': SOURCE_ATOMS['notes'],
                 'checker_cmd': 'cd lean && lake build && lake env lean Audit/%s.lean   # #print axioms for each theorem%s'
                                % (prop.ID, '; lake env leanchecker Properties.%s' % prop.ID if a.get('leanchecker') else ''),
                 'trusted_base': ['Lean 4.33.0 kernel', 'axioms: ' + ', '.join(sorted({x for v in a['axioms'].values() for x in v}) or ['none'])]
